@@ -40,3 +40,42 @@ Example ex_forward_answer :
   | _ => False
   end.
 Proof. vm_compute. auto. Qed.
+
+(* the same hypotheses are met by an arrival query (reverse direction), and the answer is the one a rider expects:
+   trip 1 then the LATER vehicle of line 2 (trip 3), arriving at 36950 <= 37000 *)
+Example ex_reverse_tables_wf :
+  wf_tables_b ex_data (ex_params false 37000) ex_acc ex_egr = true /\ wf_params_b (ex_params false 37000) = true.
+Proof. vm_compute. auto. Qed.
+Example ex_reverse_answer :
+  match calc_single ex_data ex_cs (ex_params false 37000) ex_acc ex_egr true with
+  | Ok (r, _) => rt_dep r = 35840 /\ rt_arr r = 36950 /\ rt_nboard r = 2 /\ rt_ttt r = 1110
+  | _ => False
+  end.
+Proof. vm_compute. auto. Qed.
+
+(* both answers satisfy the executable specifications the C01 / C02 / C06 theorems conclude with (so those conclusions
+   are not satisfied only by degenerate routes) *)
+Example ex_answers_meet_spec :
+  forall fwd t, (fwd, t) = (true, 35000) \/ (fwd, t) = (false, 37000) ->
+  match calc_single ex_data ex_cs (ex_params fwd t) ex_acc ex_egr true with
+  | Ok (r, _) => valid_itinerary_b ex_data scen_all (ex_params fwd t) ex_acc ex_egr r = true /\
+                 limits_ok_b ex_data scen_all (ex_params fwd t) r = true /\
+                 totals_ok_b ex_data (ex_params fwd t) r = true
+  | _ => False
+  end.
+Proof. intros fwd t [H | H]; inversion H; subst; vm_compute; auto. Qed.
+
+(* accessibility maps of the same two places (C08 / C09): every stop but the origin's own one forward; backward only the
+   stops from which the destination's stop 4 is reached by 37000 *)
+Example ex_forward_access_map :
+  match calc_allnodes ex_data ex_cs (ex_params true 35000) ex_acc with
+  | Ok (l, total) => map (fun a => (an_node a, an_time a, an_ntr a)) l = [(2%nat, 36300, 0); (3%nat, 36900, 0); (4%nat, 36700, 1)] /\ total = 4
+  | _ => False
+  end.
+Proof. vm_compute. auto. Qed.
+Example ex_reverse_access_map :
+  match calc_allnodes ex_data ex_cs (ex_params false 37000) ex_egr with
+  | Ok (l, total) => map (fun a => (an_node a, an_ttt a, an_ntr a)) l = [(1%nat, 1060, 1); (2%nat, 460, 0)] /\ total = 4
+  | _ => False
+  end.
+Proof. vm_compute. auto. Qed.
